@@ -6,7 +6,8 @@
    script for the real stores. *)
 EXTENDS KVStore, Json
 
-CONSTANTS NKeys, NNs, MaxOps   \* key k lives in namespace ((k-1) % NNs) + 1
+CONSTANTS Async,   \* TRUE: the asynchronous API (issue tickets; returns recorded in the script)
+          NKeys, NNs, MaxOps   \* key k lives in namespace ((k-1) % NNs) + 1
 
 VARIABLE hist
 mvars == <<kvars, hist>>
@@ -20,25 +21,30 @@ MCInit ==
   /\ pend = [t \in Threads |-> NoOp]
   /\ hist = <<>>
 
+Tk == IF Async THEN Len(hist) + 1 ELSE 0
+\* asynchronous scripts record which future completes when: k = position of its issue in hist
+HistRet(t) ==
+  hist' = IF Async THEN Append(hist, [op |-> "await", k |-> pend[t].tk, v |-> 0, lazy |-> FALSE]) ELSE hist
+
 \* callers are interchangeable: thread t+1 is only used while thread t is busy
 Free(t) == pend[t].op = "none" /\ \A u \in 1..(t - 1) : pend[u].op # "none"
 
 MCallWrite == \E t \in Threads, k \in 1..NKeys :
-  /\ Free(t) /\ Call(t, "write", k, Len(hist) + 1, FALSE)
+  /\ Free(t) /\ Call(t, "write", k, Len(hist) + 1, FALSE, Tk)
   /\ hist' = Append(hist, [op |-> "write", k |-> k, v |-> Len(hist) + 1, lazy |-> FALSE])
 MCallRemove == \E t \in Threads, k \in 1..NKeys, lazy \in BOOLEAN :
-  /\ Free(t) /\ Call(t, "remove", k, 0, lazy)
+  /\ Free(t) /\ Call(t, "remove", k, 0, lazy, Tk)
   /\ hist' = Append(hist, [op |-> "remove", k |-> k, v |-> 0, lazy |-> lazy])
 MCallRead == \E t \in Threads, k \in 1..NKeys :
-  /\ Free(t) /\ Call(t, "read", k, 0, FALSE)
+  /\ Free(t) /\ Call(t, "read", k, 0, FALSE, Tk)
   /\ hist' = Append(hist, [op |-> "read", k |-> k, v |-> 0, lazy |-> FALSE])
 MCallList == \E t \in Threads, n \in NSs \cup {0} :
-  /\ Free(t) /\ Call(t, "list", n, 0, FALSE)
+  /\ Free(t) /\ Call(t, "list", n, 0, FALSE, Tk)
   /\ hist' = Append(hist, [op |-> "list", k |-> n, v |-> 0, lazy |-> FALSE])
 MLin == \E t \in Threads : Lin(t) /\ UNCHANGED hist
-MRetMut == \E t \in Threads : RetMut(t) /\ UNCHANGED hist
-MRetRead == \E t \in Threads, r \in 0..MaxOps : RetRead(t, r) /\ UNCHANGED hist
-MRetList == \E t \in Threads, R \in SUBSET (1..NKeys) : RetList(t, R) /\ UNCHANGED hist
+MRetMut == \E t \in Threads : RetMut(t) /\ HistRet(t)
+MRetRead == \E t \in Threads, r \in 0..MaxOps : RetRead(t, r) /\ HistRet(t)
+MRetList == \E t \in Threads, R \in SUBSET (1..NKeys) : RetList(t, R) /\ HistRet(t)
 MDone == Len(hist) = MaxOps /\ (\A t \in Threads : pend[t].op = "none") /\ UNCHANGED mvars
 
 MCNext == MCallWrite \/ MCallRemove \/ MCallRead \/ MCallList \/ MLin \/ MRetMut \/ MRetRead
@@ -65,5 +71,5 @@ SeenWritten ==
   \A t \in Threads : pend[t].op = "read" => \A x \in pend[t].seen : x[2] <= Len(hist)
 
 EmitScripts ==
-  (Quiescent /\ Len(hist) = MaxOps) => PrintT(<<"SCRIPT", ToJson([ops |-> hist])>>)
+  (Quiescent /\ Len(hist) = MaxOps) => PrintT(<<"SCRIPT", ToJson([async |-> Async, ops |-> hist])>>)
 =============================================================================
